@@ -1773,16 +1773,17 @@ func (m *Machine) recoverFinalPhase() {
 	// as their final handlers haven't been executed
 	for _, s := range finals {
 
-		if t.latestHandlerToState == s {
+		if t.latestHandlerFinalState == s {
 			found = true
 		}
 		if !found {
 			continue
 		}
 
-		if t.latestHandlerIsEnter {
+		// undo the change of every state whose final handler has not completed
+		if slices.Contains(t.Enters, s) {
 			activeStates = slicesWithout(activeStates, s)
-		} else {
+		} else if !slices.Contains(activeStates, s) {
 			activeStates = append(activeStates, s)
 		}
 	}
